@@ -14,7 +14,8 @@ import (
 )
 
 type Ctx struct {
-	effFree map[*ssa.Function]int
+	reachM    map[*ssa.Function]map[*ssa.Function]bool
+	effFree   map[*ssa.Function]int
 	noDescend map[*ssa.Function]bool // withCallees does not enter these (leaf producers)
 	P         *core.Prog
 	R         *core.Report
